@@ -902,7 +902,7 @@ impl Prop for C18 {
     }
     fn runs_for_tier(thorough: bool) -> u64 {
         if thorough {
-            400_000
+            250_000
         } else {
             14_000
         }
